@@ -1,3 +1,4 @@
+import errno
 import grp
 import os
 import pwd
@@ -90,7 +91,12 @@ class RealFs(RealVolumeOf, Fs):
         os.mkdir(path, mode)
 
     def move(self, path, dest):
-        return fs.move(path, dest)
+        try:
+            os.rename(path, dest)
+        except OSError as e:
+            if e.errno != errno.EXDEV:
+                raise
+            fs.move(path, dest)
 
     def remove_file(self, path):
         fs.remove_file(path)
